@@ -232,7 +232,7 @@ class Builtin:
         self.name = name
 
 
-BUILTINS = ("isinstance", "type", "range", "max", "min", "len", "sorted", "set", "iter", "next", "zip", "enumerate")
+BUILTINS = ("isinstance", "type", "range", "max", "min", "len", "sorted", "set", "iter", "next", "zip", "enumerate", "reversed")
 
 
 def truth(v, node=None):
@@ -345,6 +345,20 @@ class Interp:
                 self.delete(tgt, env)
         elif isinstance(st, ast.For):
             self.exec_for(st, env)
+        elif isinstance(st, ast.While):
+            # concrete control (list cursors): bounded unrolling, never a guess
+            for _ in range(64):
+                if not self.truth(self.eval(st.test, env), st.test):
+                    self.exec_block(st.orelse, env)
+                    break
+                try:
+                    self.exec_block(st.body, env)
+                except _Continue:
+                    continue
+                except _Break:
+                    break
+            else:
+                raise Unsupported(st, "while loop not finished after 64 iterations")
         elif isinstance(st, ast.Try):
             self.exec_try(st, env)
         elif isinstance(st, (ast.Import, ast.ImportFrom)):
@@ -376,6 +390,9 @@ class Interp:
         it = self.eval(st.iter, env)
         if isinstance(it, IterV):
             it = ListObj(it.drain())
+        c = self.w.concretise_iter(self, it, st)
+        if c is not None:
+            it = c
         if isinstance(it, ListObj) or isinstance(it, TupleV):
             items = list(it.items)
             broke = False
@@ -761,6 +778,8 @@ class Interp:
                 return Const(len(args[0].entries))
         if name == "iter" and len(args) == 1 and isinstance(args[0], (ListObj, TupleV)):
             return IterV(args[0].items)
+        if name == "reversed" and len(args) == 1 and isinstance(args[0], (ListObj, TupleV)) and not getattr(args[0], "has_prefix", False):
+            return IterV(list(reversed(args[0].items)))
         if name == "next" and len(args) == 1 and isinstance(args[0], IterV):
             it = args[0]
             if it.pos >= len(it.items):
